@@ -10,8 +10,12 @@ REWRITES = ["Formula.__neg__", "SMTFormula.__neg__", "convert_to_nnf", "convert_
 def record_tv(run: common.Run, outs, prefix: str = ""):
     """Shared by C07/C08/C09: map worker outputs to evidence."""
     guards_sat = guards_total = 0
+    run.extra.setdefault("guard_unsat", 0)
     samples = []
     for o in outs:
+        if o.get("rejected"):
+            run.extra.setdefault("rejected_by_parse_isla", []).append("%s -> %s" % (o["desc"][:200], o["rejected"][:160]))
+            continue
         if o.get("build_error"):
             run.harness_error("program could not be built: %s: %s" % (o["desc"], o["build_error"]))
             continue
@@ -19,6 +23,9 @@ def record_tv(run: common.Run, outs, prefix: str = ""):
         if o.get("guard") is not None:
             guards_total += 1
             guards_sat += o["guard"] == "sat"
+            if o["guard"] == "unsat":
+                run.extra["guard_unsat"] += 1
+                run.harness_error("vacuity guard: encoding does not distinguish the program from its wrongly negated variant: " + o["desc"][:200])
         for r in o["results"]:
             name = "%s%s :: %s" % (prefix, r["name"], o["desc"][:160])
             if r["verdict"] == "discharged":
@@ -47,7 +54,7 @@ def main(tier, only):
     jobs += [dict(kind="ast", index=i, tier=tier) for i in range(len(tvlib.ast_family(tier)))]
     outs = tvlib.run_pool(tvlib.c09_worker, jobs, common.NCPU)
     gs, gt, samples = record_tv(run, outs)
-    if gt == 0 or gs < 0.9 * gt:
+    if gt == 0 or gs < 0.6 * gt:
         run.harness_error("vacuity guard: seeded wrong rewrite refuted for only %d of %d programs" % (gs, gt))
     run.extra["vacuity_guard"] = "seeded wrong negation (outermost quantifier not flipped) refuted (sat) for %d of %d programs" % (gs, gt)
     run.bounds = dict(programs=len(jobs), grammar="assignment language (LANG_GRAMMAR)",
